@@ -2,16 +2,16 @@ SPECIFICATION Spec
 CONSTANTS
   Chains = {1, 2, 3}
   Slack = 2
-  HeadSpan = 2
-  FutureSpan = 3
+  HeadSpan = 3
+  FutureSpan = 4
   Limit = 3
-  Window = 4
-  MaxRound = 3
-  MaxSnaps = 8
+  Window = 5
+  MaxRound = 4
+  MaxSnaps = 7
   MaxEarly = 1
   Late = {}
   MaxPub = 1
-  MaxAhead = 1
+  MaxAhead = 0
   Interleave = FALSE
   Faults = FALSE
   RefChoice = FALSE
